@@ -7,10 +7,10 @@ from .frontend import VERIF
 # property -> (technique, level text, level note)
 CLAIMS = {
     'C19': (
-        'static-storage inventory + who-may-write check over the type-resolved clang AST (main and bundled configurations, aliases through stored addresses); libc deny-list; descriptor-release typestate',
+        'static-storage inventory + who-may-write check over the type-resolved clang AST (main and bundled configurations, aliases through stored addresses); libc deny-list; file-creation deny rule; descriptor-release typestate',
         'static analysis: exhaustive inventory of every object with static storage duration in the library and of '
         'every site that writes one; decides clause C19-a/b (no library-owned memory is shared between contexts '
-        'except the logging settings, no process-global libc call) and C19-c (a closed descriptor number is never kept in a context). Races inside dependencies and result equality '
+        'except the logging settings, no process-global libc call), C19-c (a closed descriptor number is never kept in a context) and C19-f (files are created only through mkstemp()/tmpfile(), never under a name the library builds itself). Races inside dependencies and result equality '
         'with the serial run are not decided.',
         'trusted: clang 14 front end; write sites are recognised as assignments/increments rooted at the object or '
         'the object passed through a pointer-to-non-const parameter'),
